@@ -50,6 +50,15 @@ def roperand(rng, L, kinds=None, allow_self=True):
     return util.operand_spec(rng, rb(rng, n), kinds or OPERAND_KINDS)
 
 
+def rstructfmt(rng):
+    """A compact struct-style byteswap format: optional endian char, items with optional (also multi-digit and zero) factors."""
+    items = []
+    for _ in range(rng.choice([1, 1, 2, 3])):
+        f = rng.choice(['', '', '1', '2', '3', '0', '10', '12', '11', '20', '03'])
+        items.append(f + rng.choice('bBhHlLiIqQefd'))
+    return rng.choice(['', '', '<', '>', '@', '=']) + ''.join(items)
+
+
 def rkey(rng, L):
     if rng.random() < 0.4:
         return rpos(rng, L)
@@ -114,9 +123,13 @@ def gen_step(rng, L, ops=OPS, max_len=20000):
         if rng.random() < 0.7:
             old = util.operand_spec(rng, rb(rng, rng.choice([1, 2, 3, 8, 1, 2])), OPERAND_KINDS)
         new = roperand(rng, 8) if rng.random() < 0.9 else ['self']
-        return op, [old, new, ropt(rng, L), ropt(rng, L), rng.choice([None, None, None, 0, 1, 2, 5, -1]), rng.choice([None, None, False, True])]
+        count = rng.choice([None, None, None, 0, 1, 2, 5, -1])
+        if new == ['self'] and L > 512:
+            # every occurrence is replaced by the whole receiver: bound the growth (L**2 otherwise), the harness must stay runnable
+            count = rng.choice([1, 2]) if L <= max_len else 0
+        return op, [old, new, ropt(rng, L), ropt(rng, L), count, rng.choice([None, None, False, True])]
     if op == 'byteswap':
-        fmt = rng.choice([None, 0, 1, 2, 3, [1, 2], [2, 1, 1], -1, [1, -1], [0, 0], [], 'h', '>2h', '<hb', 'q', 'xx', '2'])
+        fmt = rng.choice([None, 0, 1, 2, 3, [1, 2], [2, 1, 1], -1, [1, -1], [0, 0], [], 'h', '>2h', '<hb', 'q', 'xx', '2', rstructfmt(rng)])
         return op, [fmt, ropt(rng, L), ropt(rng, L), rng.choice([True, True, False])]
     raise KeyError(op)
 
